@@ -97,6 +97,10 @@ func genLeaf(t *rapid.T, o *genOpts) *Node {
 	case kNew:
 		return &Node{K: kNew, M: genMsg(t, "msg")}
 	case kSent:
+		if rapid.IntRange(0, 9).Draw(t, "exitcodeSentinel?") >= 8 {
+			// the sentinels the exit-code classifier looks at
+			return &Node{K: kSent, S: rapid.SampledFrom([]string{"context.Canceled", "syscall.ECONNREFUSED", "syscall.EADDRINUSE", "context.DeadlineExceeded"}).Draw(t, "sentinel")}
+		}
 		return &Node{K: kSent, S: sentinelDefs[rapid.IntRange(0, len(sentinelDefs)-1).Draw(t, "sentinel")].name}
 	case kGRPC:
 		return &Node{K: kGRPC, G: uint32(rapid.IntRange(1, 16).Draw(t, "grpc")), M: genMsg(t, "msg")}
